@@ -631,3 +631,586 @@ func ruleR19m(c *Ctx) {
 		c.ok("R19m", "soyhtml.state template-set-in-literals-only", stObj.Pos(), fmt.Sprintf("no assignment to the template field outside the %d state literals", nlit))
 	}
 }
+
+// R07p: the accounting kept while one template is checked (locals in scope, params seen used) starts empty
+// for every template. In the loop over the registry's templates the checker is either built in the iteration
+// (a templateChecker literal, or a constructor every return of which is one), or, when one checker serves all
+// templates, every slice or map field of it is assigned afresh in the iteration (not appended to) before the
+// template is walked. A field carried over lets a use recorded for one template count for the next.
+func ruleR07p(c *Ctx) {
+	p := c.pkg("parsepasses")
+	fd := c.mustFunc("parsepasses", "CheckDataRefs")
+	if p == nil || fd == nil {
+		return
+	}
+	info := p.TypesInfo
+	tcObj := p.Types.Scope().Lookup("templateChecker")
+	if tcObj == nil {
+		c.fatalf("anchor: parsepasses.templateChecker not found")
+		return
+	}
+	st := tcObj.Type().Underlying().(*types.Struct)
+	isChecker := func(t types.Type) bool {
+		if pt, ok := t.(*types.Pointer); ok {
+			t = pt.Elem()
+		}
+		return types.Identical(t, tcObj.Type())
+	}
+	byFunc := map[*types.Func]*ast.FuncDecl{}
+	for _, d := range c.allFuncDecls("parsepasses") {
+		if fn, ok := info.Defs[d.Name].(*types.Func); ok {
+			byFunc[fn] = d
+		}
+	}
+	// fresh: the expression is a checker literal or a call all of whose returns are one
+	var fresh func(e ast.Expr, depth int) bool
+	fresh = func(e ast.Expr, depth int) bool {
+		e = ast.Unparen(e)
+		if u, ok := e.(*ast.UnaryExpr); ok && u.Op == token.AND {
+			e = ast.Unparen(u.X)
+		}
+		switch x := e.(type) {
+		case *ast.CompositeLit:
+			tv, ok := info.Types[x]
+			return ok && isChecker(tv.Type)
+		case *ast.CallExpr:
+			hd := byFunc[calleeFunc(x, info)]
+			if hd == nil || depth > 2 {
+				return false
+			}
+			all, some := true, false
+			ast.Inspect(hd.Body, func(y ast.Node) bool {
+				if _, ok := y.(*ast.FuncLit); ok {
+					return false
+				}
+				if rs, ok := y.(*ast.ReturnStmt); ok && len(rs.Results) >= 1 {
+					some = true
+					r := resolveLocalInit(rs.Results[0], hd.Body, info)
+					if !fresh(r, depth+1) {
+						all = false
+					}
+				}
+				return true
+			})
+			return all && some
+		}
+		return false
+	}
+	n := 0
+	for _, hd := range c.withHelpers("parsepasses", fd, 2) {
+		ast.Inspect(hd.Body, func(x ast.Node) bool {
+			rs, ok := x.(*ast.RangeStmt)
+			if !ok {
+				return true
+			}
+			if fv := fieldOf(rs.X, info); fv == nil || fv.Name() != "Templates" {
+				return true
+			}
+			n++
+			key := c.declKey("parsepasses", hd) + " checker-per-template"
+			// checker variables used in the body
+			used := map[types.Object]*ast.Ident{}
+			ast.Inspect(rs.Body, func(y ast.Node) bool {
+				if id, ok := y.(*ast.Ident); ok {
+					if o, ok := info.Uses[id].(*types.Var); ok && !o.IsField() && isChecker(o.Type()) {
+						if used[o] == nil {
+							used[o] = id
+						}
+					}
+				}
+				return true
+			})
+			if len(used) == 0 {
+				c.unk("R07p", key, rs.Pos(), "no templateChecker variable is used in the loop over the templates")
+				return true
+			}
+			for o := range used {
+				inside := rs.Body.Pos() <= o.Pos() && o.Pos() <= rs.Body.End()
+				if inside {
+					init := resolveLocalInit(used[o], rs.Body, info)
+					c.check(fresh(init, 0), "R07p", key, o.Pos(), "a new checker is built for each template",
+						"the checker used for a template ("+o.Name()+") is not a value built in that iteration")
+					continue
+				}
+				// shared checker: which fields are assigned afresh in the iteration (body + methods called on it)?
+				reset := map[string]bool{}
+				var scan func(n ast.Node, recv types.Object, depth int)
+				scan = func(nd ast.Node, recv types.Object, depth int) {
+					ast.Inspect(nd, func(y ast.Node) bool {
+						switch s := y.(type) {
+						case *ast.AssignStmt:
+							for i, l := range s.Lhs {
+								se, ok := ast.Unparen(l).(*ast.SelectorExpr)
+								if !ok {
+									continue
+								}
+								id, ok := ast.Unparen(se.X).(*ast.Ident)
+								if !ok || info.Uses[id] != recv {
+									continue
+								}
+								selfRef := false
+								if i < len(s.Rhs) {
+									ast.Inspect(s.Rhs[i], func(z ast.Node) bool {
+										if s2, ok := z.(*ast.SelectorExpr); ok && s2.Sel.Name == se.Sel.Name {
+											selfRef = true
+										}
+										return true
+									})
+								}
+								if !selfRef {
+									reset[se.Sel.Name] = true
+								}
+							}
+						case *ast.CallExpr:
+							if depth >= 2 {
+								return true
+							}
+							if se, ok := ast.Unparen(s.Fun).(*ast.SelectorExpr); ok {
+								if id, ok := ast.Unparen(se.X).(*ast.Ident); ok && info.Uses[id] == recv {
+									if md := byFunc[calleeFunc(s, info)]; md != nil && md.Recv != nil && len(md.Recv.List[0].Names) == 1 {
+										// only the straight-line head of the method: statements before any call that walks
+										scan(md.Body, info.Defs[md.Recv.List[0].Names[0]], depth+1)
+									}
+								}
+							}
+						}
+						return true
+					})
+				}
+				// only statements of the loop body up to (and including) the first that walks the template
+				scan(rs.Body, o, 0)
+				var missing []string
+				for i := 0; i < st.NumFields(); i++ {
+					switch st.Field(i).Type().Underlying().(type) {
+					case *types.Slice, *types.Map:
+						if !reset[st.Field(i).Name()] {
+							missing = append(missing, st.Field(i).Name())
+						}
+					}
+				}
+				c.check(len(missing) == 0, "R07p", key, rs.Pos(), "one checker serves all templates and every collection field of it is assigned afresh per template",
+					"one checker ("+o.Name()+") serves every template and its field "+strings.Join(sortedStrings(missing), ", ")+" is never emptied between them: a param use recorded while checking one template counts for the templates checked after it, so an unused param is accepted depending on what was checked before")
+			}
+			return true
+		})
+	}
+	c.floor("R07p", "loops over the registry's templates in the data-reference check", 1, n)
+}
+
+// R09f: a message bundle is shared by every render that was given it, so looking a message up changes nothing:
+// the methods of every module type that implements soymsg.Bundle (the renderers call them through the
+// interface, where the call graph cannot follow without a program that builds the bundle) write only memory
+// they allocated themselves (K1, the same effect analysis as R08a/R09a, with those methods as entries).
+func ruleR09f(c *Ctx) {
+	mp := c.pkg("soymsg")
+	if mp == nil {
+		return
+	}
+	bobj := mp.Types.Scope().Lookup("Bundle")
+	if bobj == nil {
+		c.fatalf("anchor: soymsg.Bundle not found")
+		return
+	}
+	iface, ok := bobj.Type().Underlying().(*types.Interface)
+	if !ok {
+		c.fatalf("anchor: soymsg.Bundle is not an interface")
+		return
+	}
+	var specs []entrySpec
+	var rels []string
+	for rel := range c.Pkgs {
+		rels = append(rels, rel)
+	}
+	sort.Strings(rels)
+	for _, rel := range rels {
+		p := c.Pkgs[rel]
+		for _, name := range p.Types.Scope().Names() {
+			tn, ok := p.Types.Scope().Lookup(name).(*types.TypeName)
+			if !ok || types.IsInterface(tn.Type()) {
+				continue
+			}
+			recv := ""
+			switch {
+			case types.Implements(tn.Type(), iface):
+				recv = "(" + name + ")"
+			case types.Implements(types.NewPointer(tn.Type()), iface):
+				recv = "(*" + name + ")"
+			default:
+				continue
+			}
+			for i := 0; i < iface.NumMethods(); i++ {
+				m := iface.Method(i).Name()
+				r := recv
+				// a value-receiver method of a type used through its pointer is still declared on the value
+				if sel := types.NewMethodSet(types.NewPointer(tn.Type())).Lookup(p.Types, m); sel != nil {
+					if sig, ok := sel.Obj().Type().(*types.Signature); ok && sig.Recv() != nil {
+						if _, isPtr := sig.Recv().Type().(*types.Pointer); isPtr {
+							r = "(*" + name + ")"
+						} else {
+							r = "(" + name + ")"
+						}
+					}
+				}
+				specs = append(specs, entrySpec{rel, r + "." + m})
+			}
+		}
+	}
+	c.floor("R09f", "methods of module types implementing soymsg.Bundle", 3, len(specs))
+	if len(specs) == 0 {
+		return
+	}
+	nf, nw := runEffects(c, "R09f", specs, false, nil)
+	if nw == 0 {
+		c.ok("R09f", "soymsg.Bundle implementations write-free", bobj.Pos(), fmt.Sprintf("%d methods of Bundle implementations (%d functions reachable) contain no write to memory at all", len(specs), nf))
+	}
+}
+
+// R10l: every occurrence in the source gets a node of its own: the parser keeps no table of nodes. No field of
+// parse.tree is a map, slice or array that holds ast nodes (a node looked up by its text and handed out twice is
+// shared by two messages; the naming pass then writes one message's placeholder name over the other's, after
+// its id was computed).
+func ruleR10l(c *Ctx) {
+	p := c.pkg("parse")
+	if p == nil {
+		return
+	}
+	tobj := p.Types.Scope().Lookup("tree")
+	if tobj == nil {
+		c.fatalf("anchor: parse.tree not found")
+		return
+	}
+	st, ok := tobj.Type().Underlying().(*types.Struct)
+	if !ok {
+		c.fatalf("anchor: parse.tree is not a struct")
+		return
+	}
+	var holdsNode func(t types.Type, depth int) bool
+	holdsNode = func(t types.Type, depth int) bool {
+		if depth > 4 {
+			return false
+		}
+		switch u := t.(type) {
+		case *types.Pointer:
+			return holdsNode(u.Elem(), depth+1)
+		case *types.Slice:
+			return holdsNode(u.Elem(), depth+1)
+		case *types.Array:
+			return holdsNode(u.Elem(), depth+1)
+		case *types.Map:
+			return holdsNode(u.Key(), depth+1) || holdsNode(u.Elem(), depth+1)
+		case *types.Named:
+			if r, _, ok := relPkgOfType(u); ok && r == "ast" {
+				switch u.Underlying().(type) {
+				case *types.Struct, *types.Interface:
+					return true
+				}
+			}
+		}
+		return false
+	}
+	n := 0
+	for i := 0; i < st.NumFields(); i++ {
+		f := st.Field(i)
+		switch f.Type().Underlying().(type) {
+		case *types.Map, *types.Slice, *types.Array:
+		default:
+			continue
+		}
+		n++
+		c.check(!holdsNode(f.Type(), 0), "R10l", "parse.tree."+f.Name()+" holds-no-nodes", f.Pos(), "the collection holds no ast nodes",
+			"the parser keeps ast nodes in tree."+f.Name()+" ("+f.Type().String()+"): a node handed out for more than one place in the source is shared by them, and the passes that write on nodes (placeholder names, globals) then change all of them at once")
+	}
+	c.floor("R10l", "collection fields of parse.tree", 2, n)
+}
+
+// R01m: the value of a global is the expression written after the first '=' of its line, all of it. In
+// ParseGlobals every cut of the line is at a position found by searching for "=" (or at a constant): a cut at
+// a position found by searching for anything else ("//", "#", ";") also cuts string literals that contain it
+// ('http://…'), and the definition no longer parses.
+func ruleR01m(c *Ctx) {
+	p := c.Pkgs[""]
+	fd := c.mustFunc("", "ParseGlobals")
+	if p == nil || fd == nil {
+		return
+	}
+	info := p.TypesInfo
+	n, ncut := 0, 0
+	for _, hd := range c.withHelpers("", fd, 2) {
+		ast.Inspect(hd.Body, func(x ast.Node) bool {
+			se, ok := x.(*ast.SliceExpr)
+			if !ok {
+				return true
+			}
+			if tv, ok := info.Types[se.X]; !ok || !isStringType(tv.Type) {
+				return true
+			}
+			ncut++
+			for _, b := range []ast.Expr{se.Low, se.High} {
+				if b == nil {
+					continue
+				}
+				ast.Inspect(b, func(y ast.Node) bool {
+					id, ok := y.(*ast.Ident)
+					if !ok {
+						return true
+					}
+					init := resolveLocalInit(id, hd.Body, info)
+					call, ok := ast.Unparen(init).(*ast.CallExpr)
+					if !ok || len(call.Args) < 2 {
+						return true
+					}
+					cal := calleeFunc(call, info)
+					if cal == nil || cal.Pkg() == nil || cal.Pkg().Path() != "strings" || !strings.Contains(cal.Name(), "Index") {
+						return true
+					}
+					tv, ok := info.Types[call.Args[1]]
+					if !ok || tv.Value == nil {
+						return true
+					}
+					needle := ""
+					switch tv.Value.Kind() {
+					case constant.String:
+						needle = constant.StringVal(tv.Value)
+					case constant.Int:
+						v, _ := constant.Int64Val(tv.Value)
+						needle = string(rune(v))
+					}
+					n++
+					c.check(needle == "=", "R01m", fmt.Sprintf("%s cut-at#%d", c.declKey("", hd), n), se.Pos(), "the line is cut where the first '=' was found",
+						fmt.Sprintf("the line is cut at a position found by searching for %q: a string value that contains it (a URL, for \"//\") loses its tail and its closing quote, and the globals file is rejected", needle))
+					return true
+				})
+			}
+			return true
+		})
+	}
+	c.floor("R01m", "cuts of a globals line at a searched position", 2, n)
+	_ = ncut
+}
+
+// R06i: the tree walker is never handed a node variable that may still be unset. In soyhtml and soyjs, for
+// every local declared without a value (`var body ast.Node`) and later passed to a walk method, every path
+// from the declaration to that call assigns the variable (forward may-analysis on the function's CFG), or the
+// call sits under a test that the variable is not nil. walk(nil) records nil as the current node, and the
+// entry's recover handler then fails on it: a Go panic leaves Render.
+func ruleR06i(c *Ctx) {
+	nr := newNoRet(c)
+	n, ncalls := 0, 0
+	for _, rel := range []string{"soyhtml", "soyjs"} {
+		p := c.pkg(rel)
+		if p == nil {
+			continue
+		}
+		info := p.TypesInfo
+		for _, fd := range c.allFuncDecls(rel) {
+			// candidates: locals declared without value, of interface or pointer type
+			cands := map[types.Object]bool{}
+			ast.Inspect(fd.Body, func(x ast.Node) bool {
+				if ds, ok := x.(*ast.DeclStmt); ok {
+					if gd, ok := ds.Decl.(*ast.GenDecl); ok && gd.Tok == token.VAR {
+						for _, sp := range gd.Specs {
+							vs := sp.(*ast.ValueSpec)
+							if len(vs.Values) != 0 {
+								continue
+							}
+							for _, nm := range vs.Names {
+								if o := info.Defs[nm]; o != nil {
+									switch o.Type().Underlying().(type) {
+									case *types.Interface, *types.Pointer:
+										cands[o] = true
+									}
+								}
+							}
+						}
+					}
+				}
+				return true
+			})
+			if len(cands) == 0 {
+				continue
+			}
+			// calls of a walk method with a candidate as argument
+			type site struct {
+				call *ast.CallExpr
+				obj  types.Object
+			}
+			var sites []site
+			guarded := map[*ast.CallExpr]bool{}
+			var stack []ast.Node
+			ast.Inspect(fd.Body, func(x ast.Node) bool {
+				if x == nil {
+					stack = stack[:len(stack)-1]
+					return true
+				}
+				stack = append(stack, x)
+				call, ok := x.(*ast.CallExpr)
+				if !ok {
+					return true
+				}
+				cal := calleeFunc(call, info)
+				if cal == nil || cal.Name() != "walk" || cal.Type().(*types.Signature).Recv() == nil {
+					return true
+				}
+				ncalls++
+				for _, a := range call.Args {
+					id, ok := ast.Unparen(a).(*ast.Ident)
+					if !ok || !cands[info.Uses[id]] {
+						continue
+					}
+					sites = append(sites, site{call, info.Uses[id]})
+					for i := len(stack) - 2; i >= 0; i-- {
+						if ifs, ok := stack[i].(*ast.IfStmt); ok && call.Pos() >= ifs.Body.Pos() && call.End() <= ifs.Body.End() {
+							if be, ok := ast.Unparen(ifs.Cond).(*ast.BinaryExpr); ok && be.Op == token.NEQ {
+								if cid, ok := ast.Unparen(be.X).(*ast.Ident); ok && info.Uses[cid] == info.Uses[id] && exprKey(be.Y) == "nil" {
+									guarded[call] = true
+								}
+							}
+						}
+					}
+				}
+				return true
+			})
+			if len(sites) == 0 {
+				continue
+			}
+			mayUnset := map[*ast.CallExpr]bool{}
+			runFlow(fd.Body, nr.forInfo(info), flowState{}, func(nd ast.Node, st flowState, report bool) flowState {
+				ast.Inspect(nd, func(y ast.Node) bool {
+					switch s := y.(type) {
+					case *ast.FuncLit:
+						return false
+					case *ast.ValueSpec:
+						if len(s.Values) == 0 {
+							for _, nm := range s.Names {
+								if o := info.Defs[nm]; o != nil && cands[o] {
+									st[fmt.Sprint(o.Pos())] = 1
+								}
+							}
+						}
+					case *ast.AssignStmt:
+						for _, l := range s.Lhs {
+							if id, ok := ast.Unparen(l).(*ast.Ident); ok && cands[info.Uses[id]] {
+								st[fmt.Sprint(info.Uses[id].Pos())] = 2
+							}
+						}
+					case *ast.CallExpr:
+						if report {
+							for _, si := range sites {
+								if si.call == s && st[fmt.Sprint(si.obj.Pos())]&1 != 0 {
+									mayUnset[s] = true
+								}
+							}
+						}
+					}
+					return true
+				})
+				return st
+			})
+			for _, si := range sites {
+				n++
+				key := fmt.Sprintf("%s walks %s", c.declKey(rel, fd), si.obj.Name())
+				c.check(!mayUnset[si.call] || guarded[si.call], "R06i", key, si.call.Pos(), "assigned on every path to the call (or tested against nil around it)",
+					"the node variable "+si.obj.Name()+" is declared without a value and some path reaches this walk without assigning it: the walker is handed nil, records it as the current node, and the recover handler of the entry point then fails on it (a Go panic leaves Render instead of an error)")
+			}
+		}
+	}
+	if n == 0 {
+		c.ok("R06i", "renderer and generator walk-arguments", token.NoPos, fmt.Sprintf("no walk call of the renderer or the generator is handed a local that was declared without a value (%d calls in functions with such locals examined)", ncalls))
+	}
+}
+
+// R11i: a catalogue entry stands for one message: the loader keeps one id= reference per entry (the last one
+// it reads), so the extractor gives every entry exactly one, set where the entry is built. In xgettext-soy the
+// References of a po.Message are written in its composite literal only, as a one-element list; nothing adds a
+// second reference to an entry made earlier (two messages merged into one entry: the earlier one loses its
+// translation and the later one is rendered with the other's).
+func ruleR11i(c *Ctx) {
+	rel := "soymsg/pomsg/xgettext-soy"
+	p := c.Pkgs[rel]
+	if p == nil {
+		c.fatalf("anchor: package %s not loaded", rel)
+		return
+	}
+	info := p.TypesInfo
+	nlit, n := 0, 0
+	for _, fd := range c.allFuncDecls(rel) {
+		ast.Inspect(fd.Body, func(x ast.Node) bool {
+			switch s := x.(type) {
+			case *ast.KeyValueExpr:
+				if id, ok := s.Key.(*ast.Ident); ok && id.Name == "References" {
+					if cl, ok := ast.Unparen(s.Value).(*ast.CompositeLit); ok {
+						nlit++
+						c.check(len(cl.Elts) == 1, "R11i", fmt.Sprintf("%s entry-references#%d", c.declKey(rel, fd), nlit), s.Pos(), "the entry is built with exactly one reference",
+							fmt.Sprintf("the entry is built with %d references: the loader keeps only the last id= it reads", len(cl.Elts)))
+					}
+				}
+			case *ast.AssignStmt:
+				for _, l := range s.Lhs {
+					if se, ok := ast.Unparen(l).(*ast.SelectorExpr); ok && se.Sel.Name == "References" {
+						if fv, ok := info.Uses[se.Sel].(*types.Var); ok && fv.IsField() {
+							n++
+							c.bad("R11i", fmt.Sprintf("%s extends-references#%d", c.declKey(rel, fd), n), s.Pos(),
+								"the references of an entry built earlier are changed ("+exprKey(l)+" = …): an entry that lists two message ids stands for two messages, but the loader keeps one id per entry, so one message loses its translation and the other is rendered with a text extracted for a different message")
+						}
+					}
+				}
+			}
+			return true
+		})
+	}
+	c.floor("R11i", "catalogue entries built by the extractor", 1, nlit)
+}
+
+// R20i: a Go scalar becomes the Soy scalar that holds the same number: in the converter the arms for the
+// integer, float, bool and string kinds convert with Go conversions of what reflect hands them; none goes
+// through text (no call into strconv or fmt, in the arm or in a helper it calls). A float32 printed with its
+// shortest decimal and parsed again is a different float64 (0.1 instead of 0.10000000149011612), so the
+// converted value no longer equals the Go value it came from.
+func ruleR20i(c *Ctx) {
+	p := c.pkg("data")
+	fd := c.mustFunc("data", "NewWith")
+	if p == nil || fd == nil {
+		return
+	}
+	info := p.TypesInfo
+	scalarKinds := map[string]bool{"Int": true, "Int8": true, "Int16": true, "Int32": true, "Int64": true, "Uint": true, "Uint8": true, "Uint16": true, "Uint32": true, "Uint64": true,
+		"Float32": true, "Float64": true, "Bool": true, "String": true, "Uintptr": true}
+	n := 0
+	for _, hd := range c.withHelpers("data", fd, 2) {
+		ast.Inspect(hd.Body, func(x ast.Node) bool {
+			cc, ok := x.(*ast.CaseClause)
+			if !ok || len(cc.List) == 0 {
+				return true
+			}
+			var kinds []string
+			for _, e := range cc.List {
+				if se, ok := ast.Unparen(e).(*ast.SelectorExpr); ok {
+					if k, ok := info.Uses[se.Sel].(*types.Const); ok && k.Pkg() != nil && k.Pkg().Path() == "reflect" && scalarKinds[k.Name()] {
+						kinds = append(kinds, k.Name())
+					}
+				}
+			}
+			if len(kinds) == 0 {
+				return true
+			}
+			n++
+			key := "data.NewWith arm " + strings.Join(kinds, ",") + " converts-directly"
+			why := ""
+			var at token.Pos = cc.Pos()
+			for _, nd := range c.nodeWithHelpers("data", &ast.BlockStmt{List: cc.Body}, 2) {
+				ast.Inspect(nd, func(y ast.Node) bool {
+					if call, ok := y.(*ast.CallExpr); ok && why == "" {
+						if cal := calleeFunc(call, info); cal != nil && cal.Pkg() != nil && (cal.Pkg().Path() == "strconv" || cal.Pkg().Path() == "fmt") {
+							why, at = cal.Pkg().Name()+"."+cal.Name(), call.Pos()
+						}
+					}
+					return true
+				})
+			}
+			c.check(why == "", "R20i", key, at, "the value reflect hands over is converted with a Go conversion",
+				"the scalar goes through text ("+why+") on its way to the Soy value: a float32 written with its shortest decimal and read back is not the number the Go value holds, so the converted value differs from the same number converted from a float64")
+			return true
+		})
+	}
+	c.floor("R20i", "scalar arms of the converter", 4, n)
+}
